@@ -3152,6 +3152,7 @@ static void AssembleFile_InitPass(void) {
     }
 
     SetFlag(&DoPadding, DoPaddingName, True);
+    DottedStructs = False;
 
     if (*DefCPU == '\0') {
         SetCPUByType(0, NULL);
